@@ -84,6 +84,8 @@ def tabulated_raw():
         out = {}
         for fn in sorted(glob.glob(os.path.join(env.REPO, "coxeter", "families", "data", "*.json"))):
             fam = os.path.basename(fn)[:-5]
+            if fam.startswith("_"):
+                continue  # e.g. _previous_science1220869.json: not part of any family
             for k, v in json.load(open(fn)).items():
                 if isinstance(v, dict) and "vertices" in v:
                     out[f"{fam}:{k}"] = v["vertices"]
